@@ -388,7 +388,17 @@ class DiagLayer:
                 # response for the service. if this is not the case
                 # either, the service is simply not the one we are
                 # looking for...
+                request_prefix = b''
+                if service.request is not None:
+                    request_prefix = service.request.coded_const_prefix()
                 for gnr in self.global_negative_responses:
+                    # like for the responses of the service, the
+                    # constant prefix of the global negative response
+                    # must be present in the message
+                    gnr_prefix = gnr.coded_const_prefix(request_prefix=request_prefix)
+                    if message[:len(gnr_prefix)] != gnr_prefix:
+                        continue
+
                     try:
                         decoded_gnr = gnr.decode(message)
                         if not isinstance(decoded_gnr, dict):
